@@ -16,6 +16,50 @@ BIND_KINDS = KINDS + ['try_list', 'pd2np_exc']      # try_list: a mutable fallba
 PD2NP_EXC = ["l", [["s", "a"], ["s", "b"], ["s", "x"]]]   # pd2np(exc = ['a', 'b', 'x'])
 CLASS_OF = {'try_none': 'try_value', 'try_zero': 'try_value', 'try_list': 'try_value', 'pd2np_exc': 'pd2np'}
 NONE = ["n", 0]
+# optional parameters of the try wrappers at non-default values (no part of a layer: Decorators.tla OptKindSeq)
+OPTIONS = {'try_none_verbose': dict(verbose=True), 'try_zero_verbose': dict(value=0, verbose=True), 'try_none_silent': dict(verbose=False),
+           'try_none_repeat': dict(repeat=2), 'try_zero_repeat_verbose': dict(value=0, repeat=1, verbose=True),
+           'try_list_verbose': dict(value=[], verbose=True)}
+CLASS_OF.update({k: 'try_value' for k in OPTIONS})
+# how the base function fails when it is handed the marker value (Decorators.tla FailMarks / ExcClassOf)
+FAIL_MARKS = ['bad', 'bad_bare', 'bad_assert', 'bad_args', 'bad_key', 'bad_sub', 'bad_stop', 'bad_fmt', 'bad_interrupt', 'bad_exit', 'bad_genexit']
+FROM_BASE = 'raised by the base function'
+INTERRUPTS = (KeyboardInterrupt, SystemExit, GeneratorExit)
+
+
+class Oops(ValueError):
+    """a user-defined exception, raised without a message"""
+
+
+def fail(mark):
+    if mark == 'bad':
+        raise ValueError("bad")
+    if mark == 'bad_bare':
+        raise ValueError                                      # the class itself: no message
+    if mark == 'bad_assert':
+        assert mark is None                                   # a bare assert: AssertionError()
+    if mark == 'bad_args':
+        raise ValueError('too big', 7)
+    if mark == 'bad_key':
+        return {}['k']                                        # raised by the interpreter: KeyError('k')
+    if mark == 'bad_sub':
+        raise Oops()
+    if mark == 'bad_stop':
+        raise StopIteration
+    if mark == 'bad_fmt':
+        raise ValueError('100%s of %d %(x)s {0} {}')
+    if mark == 'bad_interrupt':
+        raise KeyboardInterrupt(FROM_BASE)
+    if mark == 'bad_exit':
+        raise SystemExit(FROM_BASE)
+    if mark == 'bad_genexit':
+        raise GeneratorExit(FROM_BASE)
+    raise Machinery('unknown failure marker %r' % (mark,))
+
+
+def _mine(e):
+    """an interrupt the base function raised on purpose (anything else - a real Ctrl-C - goes on)"""
+    return bool(e.args) and e.args[0] == FROM_BASE
 DEFAULTS = {False: {'a': 'da', 'b': 'db', 'c': 'dc', 'd': 'dd'}, True: {'a': 'ea', 'b': 0, 'c': 'ec', 'd': None}}
 MARK = 'the caller owns its result'
 
@@ -54,6 +98,10 @@ def outcome(fn, *args, **kwargs):
         return tagx(fn(*args, **kwargs))
     except Exception as e:
         return ["exc", type(e).__name__]
+    except INTERRUPTS as e:
+        if not _mine(e):
+            raise
+        return ["exc", type(e).__name__]
 
 
 def sigkey(sig):
@@ -74,6 +122,10 @@ def call_and_mutate(fn, *args, **kwargs):
         r = fn(*args, **kwargs)
     except Exception as e:
         return ["exc", type(e).__name__]
+    except INTERRUPTS as e:
+        if not _mine(e):
+            raise
+        return ["exc", type(e).__name__]
     out = tagx(r)
     mutate(r)
     return out
@@ -93,10 +145,10 @@ def base_function(sig, counting=False):
     if sig['varkw']:
         ps.append('**kw'); items.append("'kw': kw"); seen.append('*kw.values()')
     src = ('def f(%s):\n    _cnt[0] += 1\n    _q = False\n    for _v in (%s):\n        if type(_v) is str:\n'
-           '            if _v == "bad": raise ValueError("bad")\n            if _v == "quiet": _q = True\n'
+           '            if _v in _marks: _fail(_v)\n            if _v == "quiet": _q = True\n'
            '    if _q: return None\n    _r = {%s}\n    return %s\n') % (', '.join(ps), ''.join(x + ', ' for x in seen), ', '.join(items),
                                                                      '(_r, _cnt[0])' if counting else '_r')
-    ns = {'_cnt': [0]}
+    ns = {'_cnt': [0], '_marks': frozenset(FAIL_MARKS), '_fail': fail}
     ns.update({'_d_' + k: v for k, v in DEFAULTS[bool(sig.get('alt'))].items()})
     exec(src, ns)
     f = ns['f']
@@ -110,6 +162,10 @@ def pyg():
     from pyg_base._cache import cache
     if not hasattr(pyg, 'loops'):
         pyg.loops = P.loop(list, dict)
+        import logging, os
+        for h in logging.getLogger('pyg').handlers:           # verbose = True really logs: into the void
+            if isinstance(h, logging.StreamHandler):
+                h.setStream(open(os.devnull, 'w'))
     return P, try_value, wrapper, cache
 
 
@@ -140,7 +196,29 @@ def decorator(layer):
 
 
 def layer_of(kind):
+    if kind in OPTIONS:
+        return ['try_value', tagx(OPTIONS[kind].get('value'))]
     return [CLASS_OF.get(kind, kind), {'try_zero': ["i", 0], 'try_list': ["l", []], 'pd2np_exc': PD2NP_EXC}.get(kind, NONE)]
+
+
+def decorator_of_kind(kind):
+    """the decorator of a kind: one module-level instance per kind with optional parameters (like pyg_base.try_zero)"""
+    if kind not in OPTIONS:
+        return decorator(layer_of(kind))
+    if kind not in _DECOS:
+        _DECOS[kind] = pyg()[1](**OPTIONS[kind])
+    return _DECOS[kind]
+
+
+def ready_made(kind):
+    """a NEW ready-made decorator object of the kind (a wrapper without a function), to be applied to several functions"""
+    P, try_value, wrapper, cache = pyg()
+    from pyg_base._cache import cache_func
+    if kind in OPTIONS:
+        return try_value(**OPTIONS[kind])
+    return {'try_none': lambda: try_value(), 'try_zero': lambda: try_value(value=0), 'try_list': lambda: try_value(value=[]),
+            'try_back': lambda: P.try_back(), 'kwargs_support': lambda: P.kwargs_support(), 'cache': lambda: cache_func(),
+            'loops': lambda: P.loop(list, dict), 'pd2np': lambda: P.pd2np(), 'pd2np_exc': lambda: P.pd2np(exc=untagx(PD2NP_EXC))}[kind]()
 
 
 def project(o, f):
@@ -184,7 +262,18 @@ def realise(cc, flip=False):
 
 
 FEATURES = ('kwargs_support', 'pd2np', 'cache', 'loops', 'try', 'extra_kw_for_varkw', 'no_first_arg', 'bad_passed', 'eager',
-            'list_tuple_twin', 'unhashable_arg', 'quiet_passed', 'alt_defaults', 'mutable_fallback')
+            'list_tuple_twin', 'unhashable_arg', 'quiet_passed', 'alt_defaults', 'mutable_fallback',
+            'options_set', 'interrupt', 'reused_binding', 'edited_binding', 'second_function')
+BAD_VALUES = [["s", m] for m in FAIL_MARKS]
+
+
+def passed(cc):
+    return list(cc['pos']) + [v for _, v in cc['kw']]
+
+
+def fail_mark(cc):
+    ms = [v[1] for v in passed(cc) if v in BAD_VALUES]
+    return ms[0] if ms else ''
 
 
 def describe(sig, classes, cc, eager=False):
@@ -194,11 +283,13 @@ def describe(sig, classes, cc, eager=False):
             'loops': 'loops' in classes, 'try': ('try_value' in classes) or ('try_back' in classes),
             'extra_kw_for_varkw': bool(sig['varkw']) and any(n not in declared for n, _ in cc['kw']),
             'no_first_arg': not (bool(cc['pos']) or (sig['npos'] > 0 and any(n == 'a' for n, _ in cc['kw']))),
-            'bad_passed': ["s", "bad"] in (list(cc['pos']) + [v for _, v in cc['kw']]), 'eager': eager,
+            'bad_passed': bool(fail_mark(cc)), 'interrupt': fail_mark(cc) in FAIL_MARKS[-3:], 'eager': eager,
             'quiet_passed': ["s", "quiet"] in (list(cc['pos']) + [v for _, v in cc['kw']]), 'alt_defaults': bool(sig.get('alt'))}
 
 
 def call_clause(keys):
+    if keys.get('interrupt'):
+        return 'interrupt_passes_through'
     return 'fallback_iff_raises' if keys['try'] and keys['bad_passed'] else 'transparent_call'
 
 
@@ -416,6 +507,199 @@ def s2c_memo(ctx, rep, cases):
 
 
 # ------------------------------------------------------------------------------------------------
+# S2C (b'): every way f can fail x where the failing value is passed x chains of kinds with optional parameters set
+# ------------------------------------------------------------------------------------------------
+def build_chain(kinds, f):
+    w = f
+    for kind in reversed(kinds):
+        w = decorator_of_kind(kind)(w)
+    return w
+
+
+def s2c_exc(ctx, rep, cases):
+    cases.sort(key=lambda c: (len(c['kinds']), json.dumps(c['kinds']), json.dumps(c['sig'], sort_keys=True)))
+    for n, case in enumerate(cases):
+        sig, kinds, chain = case['sig'], case['kinds'], case['chain']
+        f = base_function(sig)
+        w = build_chain(kinds, f)
+        classes = [c for c, _ in chain]
+        base_keys = {'part': 'exc', 'kinds': kinds, 'options_set': any(k in OPTIONS for k in kinds),
+                     'mutable_fallback': any(c == 'try_value' and p[0] in ('l', 'm') for c, p in chain)}
+        ctx.evals += 2
+        if project(w, f) != chain:
+            rep('normal_form', dict(base_keys, op='wrap'), {'sig': sig}, {'expected': chain, 'observed': project(w, f)})
+            continue
+        if argspec_of(w) != case['argspec']:
+            rep('same_signature', dict(base_keys, op='getargspec'), {'sig': sig}, {'expected': case['argspec'], 'observed': argspec_of(w)})
+        for cc, want in sorted(case['outs'], key=json.dumps):
+            if want[0] == 'unspec':
+                continue
+            args, kwargs = realise(cc)
+            call = outcome if 'cache' in classes else call_and_mutate
+            got = call(w, *args, **kwargs)
+            again = call(w, *args, **kwargs)                    # the same argument objects handed to a second call
+            ctx.evals += 2
+            keys = dict(base_keys, op='call')
+            keys.update(describe(sig, classes, cc))
+            if got != want or again != want:
+                rep(call_clause(keys), keys, {'sig': sig, 'cc': cc, 'fail_mark': fail_mark(cc), 'second_call': got == want},
+                    {'expected': want, 'observed': got, 'observed_again': again})
+            elif [tagx(x) for x in args] != cc['pos'] or [[k, tagx(v)] for k, v in sorted(kwargs.items())] != cc['kw']:
+                rep('argument_changed', keys, {'sig': sig, 'cc': cc}, {'observed_arguments': [[tagx(x) for x in args], tagx(kwargs)]})
+            if fail_mark(cc) not in ('', 'bad'):
+                ctx.note(('exc', json.dumps(kinds), fail_mark(cc), json.dumps(cc)))
+        if n % 101 == 0:
+            ctx.sample({'s2c_exc_case': {k: (v if k != 'outs' else v[:3]) for k, v in case.items()}})
+        ctx.traces += 1
+
+
+# ------------------------------------------------------------------------------------------------
+# S2C (d): the caller's bindings: getcallargs / call_with_callargs on f and on W(f) / the caller's own edits, as histories
+# ------------------------------------------------------------------------------------------------
+def apply_edit(D, e):
+    """the caller edits, in place, the binding it owns (Decorators.tla Edited)"""
+    if e == 'set_first':
+        D['a'] = 9
+    elif e == 'fail_first':
+        D['a'] = 'bad_bare'
+    elif e == 'more_args':
+        D['args'] = D['args'] + (8,)
+    elif e == 'more_kw':
+        D['kw']['z'] = 7
+    else:
+        raise Machinery('unknown edit %r' % (e,))
+
+
+def run_args(sig, kind, hist):
+    """replays a history; returns (outcome of the last call, the caller's bindings afterwards) or None when an earlier
+    getcallargs did not even return a dict (reported by the shorter history that ends there)"""
+    P = pyg()[0]
+    f = base_function(sig)
+    objs = [f, decorator_of_kind(kind)(f)]
+    own = CLASS_OF.get(kind, kind) != 'cache'                  # never mutate what a memo serves (MemoisedResultIsShared)
+    mine, got = [], None
+    for step in hist:
+        if step['op'] == 'get':
+            args, kwargs = realise(step['cc'])
+            try:
+                D = P.getcallargs(objs[step['obj']], *args, **kwargs)
+                got = tagx(D)
+            except Exception as e:
+                D, got = None, ["exc", type(e).__name__]
+            if not isinstance(D, dict):
+                return (got, [tagx(d) for d in mine]) if step is hist[-1] else None
+            mine.append(D)
+        elif step['op'] == 'replay':
+            got = (call_and_mutate if own or step['obj'] == 0 else outcome)(P.call_with_callargs, objs[step['obj']], mine[step['i'] - 1])
+        else:
+            apply_edit(mine[step['i'] - 1], step['e'])
+    return got, [tagx(d) for d in mine]
+
+
+def args_keys(kind, hist):
+    last = hist[-1]
+    replays = [(s['i']) for s in hist if s['op'] == 'replay']
+    return {'part': 'args', 'op': {'get': 'getcallargs', 'replay': 'call_with_callargs'}[last['op']], 'kind': kind if last['obj'] else 'none',
+            'wrapper_in_session': kind, 'reused_binding': len(replays) > len(set(replays)) or (last['op'] == 'replay' and len(hist) > 2),
+            'edited_binding': any(s['op'] == 'edit' for s in hist)}
+
+
+def s2c_args(ctx, rep, cases):
+    cases.sort(key=lambda c: (len(c['hist']), json.dumps(c['hist']), json.dumps(c['sig'], sort_keys=True), c['kind']))
+    for n, case in enumerate(cases):
+        sig, kind, hist = case['sig'], case['kind'], case['hist']
+        r = run_args(sig, kind, hist)
+        ctx.evals += len(hist)
+        ctx.traces += 1
+        if r is None:
+            continue
+        got, store = r
+        keys = args_keys(kind, hist)
+        last = hist[-1]
+        if store != case['store']:                            # a call owns nothing of the caller
+            rep('argument_changed', keys, {'sig': sig, 'hist': hist}, {'expected_bindings': case['store'], 'observed_bindings': store})
+        elif case['out'][0] != 'unspec' and got != case['out']:
+            clause = ('getcallargs' if last['op'] == 'get' else 'call_with_callargs') + ('_wrapped' if last['obj'] else '')
+            rep(clause, keys, {'sig': sig, 'hist': hist}, {'expected': case['out'], 'observed': got})
+        if len(hist) > 1:
+            ctx.note(('args', json.dumps([sig, hist], sort_keys=True)))
+        if n % 1501 == 0:
+            ctx.sample({'s2c_args_history': case})
+
+
+# ------------------------------------------------------------------------------------------------
+# S2C (e): ready-made decorator OBJECTS applied to two functions made from one code object
+# ------------------------------------------------------------------------------------------------
+def project2(o, fs):
+    """abstraction function: decorated function -> {fn: which function it wraps (0 = none of the session's), chain}"""
+    _, _, wrapper, _ = pyg()
+    b = o
+    while isinstance(b, wrapper):
+        b = dict.get(b, 'function')
+    for i, f in enumerate(fs):
+        if b is f:
+            return {'fn': i + 1, 'chain': project(o, f)}
+    return {'fn': 0, 'chain': project(o, None)}
+
+
+def run_deco(sig, twin, kinds, hist):
+    fs = [base_function(sig), base_function(twin)]
+    decos = [ready_made(k) for k in kinds]
+    live, got = [], None
+    for step in hist:
+        if step['op'] == 'decorate':
+            target = fs[-step['on'] - 1] if step['on'] < 0 else live[step['on'] - 1]
+            live.append(decos[step['k'] - 1](target))
+            got = None
+        else:
+            o = live[step['on'] - 1]
+            args, kwargs = realise(step['cc'])
+            before = [f.counter[0] for f in fs]
+            cached = any(c == 'cache' for c, _ in project2(o, fs)['chain'])
+            out = (outcome if cached else call_and_mutate)(o, *args, **kwargs)
+            got = [out, [f.counter[0] - b for f, b in zip(fs, before)]]
+    return got, [project2(o, fs) for o in live], [argspec_of(o) for o in live]
+
+
+def s2c_deco(ctx, rep, cases):
+    cases.sort(key=lambda c: (len(c['hist']), len(c['kinds']), json.dumps(c['hist']), json.dumps(c['kinds'])))
+    for n, case in enumerate(cases):
+        sig, kinds, hist, objs = case['sig'], case['kinds'], case['hist'], case['objs']
+        got, heap, specs = run_deco(sig, case['twin'], kinds, hist)
+        ctx.evals += len(hist)
+        ctx.traces += 1
+        last = hist[-1]
+        chain = objs[last['on'] - 1]['chain'] if last['op'] == 'call' else objs[-1]['chain']
+        classes = [c for c, _ in chain]
+        keys = {'part': 'deco', 'op': last['op'], 'kinds': kinds, 'options_set': any(k in OPTIONS for k in kinds),
+                'second_function': len({o['fn'] for o in objs}) > 1,
+                'mutable_fallback': any(c == 'try_value' and p[0] in ('l', 'm') for c, p in chain)}
+        keys.update(describe(sig, classes, last['cc']))
+        body = {'sig': sig, 'hist': hist}
+        if heap[:len(objs) - 1] != objs[:-1] and last['op'] == 'decorate':
+            rep('only_new_object', keys, body, {'expected': objs, 'observed': heap})
+        elif heap != objs:
+            rep('normal_form' if last['op'] == 'decorate' else 'call_changed_an_object', keys, body, {'expected': objs, 'observed': heap})
+        elif specs != [case['specs'][o['fn'] - 1] for o in objs]:
+            rep('same_signature', dict(keys, op='getargspec'), body, {'expected': [case['specs'][o['fn'] - 1] for o in objs], 'observed': specs})
+        elif last['op'] == 'call':
+            want_out, want_evals = case['out']
+            out, evals = got
+            masked = [e if w != -1 else -1 for e, w in zip(evals, want_evals)]     # -1: the statement does not pin the count
+            own = objs[last['on'] - 1]['fn'] - 1
+            if want_out[0] != 'unspec' and out != want_out:
+                rep(call_clause(keys), keys, body, {'expected': want_out, 'observed': out})
+            elif masked[1 - own] != want_evals[1 - own]:
+                rep('evaluates_other_function', keys, body, {'expected_evaluations': want_evals, 'observed': evals})
+            elif masked != want_evals:
+                rep('memo_evaluates_once' if want_evals[own] == 1 else 'memo_first_result', keys, body, {'expected_evaluations': want_evals, 'observed': evals})
+        if len({o['fn'] for o in objs}) > 1 and sum(1 for s_ in hist if s_['op'] == 'call') > 1:
+            ctx.note(('deco', json.dumps([kinds, hist], sort_keys=True)))
+        if n % 1201 == 0:
+            ctx.sample({'s2c_deco_history': case})
+
+
+# ------------------------------------------------------------------------------------------------
 # C2S: seeded random, larger and stranger observations for Trace_Decorators
 # ------------------------------------------------------------------------------------------------
 EXTRA_KW = ['x', 'y', 'z', 'w', 'value', 'types']
@@ -463,10 +747,11 @@ def rand_call(rng, sig, allow_extra_kw, value=rand_value, bad=0.15, quiet=0.1):
     kw.sort()
     if rng.random() < bad and (pos or kw):
         j = rng.randrange(len(pos) + len(kw))
+        mark = ["s", "bad" if rng.random() < 0.4 else rng.choice(FAIL_MARKS)]      # every way the base function can fail
         if j < len(pos):
-            pos[j] = ["s", "bad"]
+            pos[j] = mark
         else:
-            kw[j - len(pos)][1] = ["s", "bad"]
+            kw[j - len(pos)][1] = mark
     if rng.random() < quiet and (pos or kw):                  # the base function returns None for this call
         j = rng.randrange(len(pos) + len(kw))
         if j < len(pos):
@@ -490,10 +775,11 @@ def observe_bind(rng):
     except Exception as e:
         o['cwc'] = ["exc", type(e).__name__]
     layers = []
-    for layer in [layer_of(k) for k in BIND_KINDS] + [rng.choice(EXTRA_LAYERS), EXTRA_LAYERS[-1]]:
-        w = decorator(layer)(f)
+    opt = rng.sample(sorted(OPTIONS), 2)                        # two wrappers with optional parameters set
+    for layer, kind in [(layer_of(k), k) for k in BIND_KINDS + opt] + [(rng.choice(EXTRA_LAYERS), None), (EXTRA_LAYERS[-1], None)]:
+        w = (decorator_of_kind(kind) if kind in OPTIONS else decorator(layer))(f)
         rec = {'layer': layer, 'out': (outcome if layer[0] == 'cache' else call_and_mutate)(w, *args, **kwargs), 'argspec': argspec_of(w),
-               'gca': outcome(P.getcallargs, w, *args, **kwargs)}
+               'gca': outcome(P.getcallargs, w, *args, **kwargs), 'kind': kind or ''}
         try:
             rec['cwc'] = outcome(P.call_with_callargs, w, P.getcallargs(w, *args, **kwargs))
         except Exception as e:
@@ -527,6 +813,89 @@ def observe_hist(rng, nmax):
             if own and out[0] in ('l', 'm'):
                 events.append({'op': 'mutate'})
     return {'part': 'hist', 'sig': sig, 'events': events}
+
+
+def observe_args(rng, nmax):
+    """a session on the caller's bindings: getcallargs / call_with_callargs on f and on W(f) / the caller's own edits"""
+    P = pyg()[0]
+    sig = rand_sig(rng)
+    kind = rng.choice(BIND_KINDS + sorted(OPTIONS))
+    layer = layer_of(kind)
+    f = base_function(sig)
+    objs = [f, decorator_of_kind(kind)(f)]
+    own = layer[0] != 'cache'
+    pool = [rand_call(rng, sig, allow_extra_kw=sig['varkw']) for _ in range(rng.randint(1, 3))]
+    edits = [e for e, ok in (('set_first', sig['npos'] >= 1), ('fail_first', sig['npos'] >= 1), ('more_args', sig['varargs']), ('more_kw', sig['varkw'])) if ok]
+    mine, events = [], []
+    empty = {'pos': [], 'kw': []}
+    for _ in range(rng.randint(3, nmax)):
+        r = rng.random()
+        if not mine or (len(mine) < 4 and r < 0.25):
+            o, cc = rng.randint(0, 1), rng.choice(pool)
+            args, kwargs = realise(cc, flip=rng.random() < 0.5)
+            try:
+                D = P.getcallargs(objs[o], *args, **kwargs)
+                out = tagx(D)
+            except Exception as e:
+                D, out = None, ["exc", type(e).__name__]
+            if isinstance(D, dict):
+                mine.append(D)
+            events.append({'op': 'get', 'obj': o, 'cc': cc, 'i': 0, 'e': '', 'out': out})
+        elif edits and r < 0.5:
+            i, e = rng.randrange(len(mine)), rng.choice(edits)
+            apply_edit(mine[i], e)
+            events.append({'op': 'edit', 'obj': 0, 'cc': empty, 'i': i + 1, 'e': e, 'out': NONE})
+        else:
+            o, i = rng.randint(0, 1), rng.randrange(len(mine))
+            out = (call_and_mutate if own or o == 0 else outcome)(P.call_with_callargs, objs[o], mine[i])
+            events.append({'op': 'replay', 'obj': o, 'cc': empty, 'i': i + 1, 'e': '', 'out': out})
+        events[-1]['store'] = [tagx(d) for d in mine]
+        if events[-1]['op'] == 'get' and events[-1]['out'][0] == 'exc':
+            break                                             # the specification rejects this event: nothing after it is judged
+    return {'part': 'args', 'sig': sig, 'kind': kind, 'layer': layer, 'events': events}
+
+
+def deco_value(rng, depth=0):
+    r = rng.random()
+    if r < 0.45 or depth >= 2:
+        return ["i", rng.randint(-2, 3)]
+    if r < 0.65:
+        return ["s", rng.choice(['u', 'v', '1'])]
+    if r < 0.75:
+        return NONE
+    return ["t", [deco_value(rng, depth + 1) for _ in range(rng.randint(0, 2))]]
+
+
+def observe_deco(rng, nmax):
+    """a session with three functions made from one code object (the second with other defaults) and one to three
+    ready-made decorator objects applied to them and to each other's results"""
+    sig = dict(rand_sig(rng), alt=False)
+    sigs = [sig, dict(sig, alt=True), sig]
+    fs = [base_function(s_) for s_ in sigs]
+    kinds = [rng.choice(BIND_KINDS + sorted(OPTIONS)) for _ in range(rng.randint(1, 3))]
+    layers = [layer_of(k) for k in kinds]
+    decos = [ready_made(k) for k in kinds]
+    plain = [rand_call(rng, sig, allow_extra_kw=sig['varkw'], value=deco_value, bad=0.25, quiet=0.05) for _ in range(rng.randint(1, 3))]
+    extra = [rand_call(rng, sig, allow_extra_kw=True, value=deco_value, bad=0.25, quiet=0.05)]
+    live, events = [], []
+    empty = {'pos': [], 'kw': []}
+    for _ in range(rng.randint(5, nmax)):
+        if len(live) < 2 or (len(live) < 7 and rng.random() < 0.25):
+            k = rng.randrange(len(kinds))
+            on = -rng.randint(1, 3) if (len(live) < 2 or rng.random() < 0.6) else rng.randint(1, len(live))
+            live.append(decos[k](fs[-on - 1] if on < 0 else live[on - 1]))
+            events.append({'op': 'decorate', 'k': k + 1, 'on': on, 'cc': empty, 'out': NONE, 'evals': [0, 0, 0]})
+        else:
+            i = rng.randrange(len(live))
+            classes = [c for c, _ in project2(live[i], fs)['chain']]
+            cc = rng.choice(plain + extra if ('kwargs_support' in classes or sig['varkw']) else plain)
+            args, kwargs = realise(cc, flip=rng.random() < 0.5)
+            before = [f.counter[0] for f in fs]
+            out = (outcome if 'cache' in classes else call_and_mutate)(live[i], *args, **kwargs)
+            events.append({'op': 'call', 'k': 0, 'on': i + 1, 'cc': cc, 'out': out, 'evals': [f.counter[0] - b for f, b in zip(fs, before)]})
+        events[-1]['heap'] = [project2(o, fs) for o in live]
+        events[-1]['specs'] = [argspec_of(o) for o in live] if events[-1]['op'] == 'decorate' else []
+    return {'part': 'deco', 'sigs': sigs, 'kinds': kinds, 'layers': layers, 'events': events}
 
 
 def memo_value(rng, depth=0):
@@ -582,7 +951,7 @@ def observe_memo(rng, nmax):
 def canaries(obs):
     """binding check of the trace specification: one corrupted copy per part, which it must reject"""
     out = []
-    for part in ('bind', 'hist', 'memo'):
+    for part in ('bind', 'hist', 'memo', 'args', 'deco'):
         for o in obs:
             if o['part'] != part:
                 continue
@@ -594,6 +963,12 @@ def canaries(obs):
                 e['heap'][0] = e['heap'][0] + [['pd2np', NONE], ['pd2np', NONE]]
             elif part == 'memo' and len(o['events']) > 1:
                 c['events'][-1]['evals'] += 1
+            elif part == 'args' and any(e['op'] == 'replay' and e['store'][e['i'] - 1][1] for e in o['events']):
+                e = [e for e in c['events'] if e['op'] == 'replay' and e['store'][e['i'] - 1][1]][0]
+                e['store'][e['i'] - 1][1].pop()               # the replay lost an entry of the caller's binding
+            elif part == 'deco' and any(e['op'] == 'call' for e in o['events']):
+                e = [e for e in c['events'] if e['op'] == 'call'][-1]
+                e['evals'][[x['fn'] for x in e['heap']][e['on'] - 1] % 3] += 1       # another function was evaluated
             else:
                 continue
             c['canary'] = True
@@ -612,6 +987,18 @@ def hist_case(o, clause_at):
         return clause, keys, {'sig': o['sig'], 'cc': o['cc']}, {k: o[k] for k in ('inspect', 'pyg_argspec', 'getcallargs', 'cwc')} | {'layers': [[w['layer'], w['out']] for w in o['layers']]}
     i = int(at) if at else len(o['events'])
     e = o['events'][i - 1]
+    if o['part'] == 'args':
+        replays = [x['i'] for x in o['events'][:i] if x['op'] == 'replay']
+        keys = {'part': 'args', 'op': {'get': 'getcallargs', 'replay': 'call_with_callargs', 'edit': 'edit'}[e['op']], 'kind': o['kind'] if e['obj'] else 'none',
+                'wrapper_in_session': o['kind'], 'reused_binding': len(replays) > len(set(replays)),
+                'edited_binding': any(x['op'] == 'edit' for x in o['events'][:i]), 'options_set': o['kind'] in OPTIONS}
+        return clause, keys, {'sig': o['sig'], 'events': [{k: v for k, v in x.items() if k not in ('store', 'out')} for x in o['events'][:i]]}, {'observed': e['out'], 'observed_bindings': e['store']}
+    if o['part'] == 'deco':
+        chain = e['heap'][e['on'] - 1]['chain'] if e['op'] == 'call' and 0 < e['on'] <= len(e['heap']) else (e['heap'][-1]['chain'] if e['heap'] else [])
+        keys = {'part': 'deco', 'op': e['op'], 'kinds': o['kinds'], 'options_set': any(k in OPTIONS for k in o['kinds']),
+                'second_function': len({x['fn'] for x in e['heap']}) > 1, 'mutable_fallback': any(c == 'try_value' and p[0] in ('l', 'm') for c, p in chain)}
+        keys.update(describe(o['sigs'][0], [c for c, _ in chain], e['cc'], eager=True))
+        return clause, keys, {'sigs': o['sigs'], 'events': [{k: v for k, v in x.items() if k != 'specs'} for x in o['events'][:i]]}, {'observed': e['out'], 'evaluations': e['evals']}
     if o['part'] == 'memo':
         kinds = {v[0] for v in e['cc']['pos']} | {v[0] for _, v in e['cc']['kw']}
         return clause, {'part': 'memo', 'op': 'call', 'cache': True, 'unhashable_arg': bool(kinds & {'l', 'm', 'set'}),
@@ -629,16 +1016,18 @@ def hist_case(o, clause_at):
 CHUNK = 2500
 
 
-def c2s(ctx, rep, nbind, nhist, nmemo):
+def c2s(ctx, rep, nbind, nhist, nmemo, nargs, ndeco):
     rng = ctx.rng
     obs = [observe_bind(rng) for _ in range(nbind)]
     obs += [observe_hist(rng, 18 if ctx.quick else 30) for _ in range(nhist)]
     obs += [observe_memo(rng, 20 if ctx.quick else 40) for _ in range(nmemo)]
+    obs += [observe_args(rng, 10 if ctx.quick else 16) for _ in range(nargs)]
+    obs += [observe_deco(rng, 14 if ctx.quick else 24) for _ in range(ndeco)]
     ctx.evals += sum(1 + 3 * len(o['layers']) if o['part'] == 'bind' else sum(1 for e in o['events'] if e.get('op') != 'mutate') for o in obs)
     nreal = len(obs)
     obs += canaries(obs)
-    if len(obs) != nreal + 3:
-        raise Machinery('could not build the three corrupted observations')
+    if len(obs) != nreal + 5:
+        raise Machinery('could not build the five corrupted observations')
     bad = {}
     for lo in range(0, len(obs), CHUNK):                      # one TLC start per chunk keeps the log inside TLC's heap
         for i, clause in ctx.validate('Trace_Decorators', obs[lo:lo + CHUNK]):
@@ -660,8 +1049,12 @@ def c2s(ctx, rep, nbind, nhist, nmemo):
             ctx.note(('c2s-hist', json.dumps(o['events'], sort_keys=True)))
         elif o['part'] == 'memo':
             ctx.note(('c2s-memo', json.dumps(o['events'], sort_keys=True)))
+        elif o['part'] in ('args', 'deco') and len(o['events']) > 2:
+            ctx.note(('c2s-' + o['part'], json.dumps(o['events'], sort_keys=True)))
     ctx.sample({'c2s_history': obs[nbind + nhist // 2]})
     ctx.sample({'c2s_memo': obs[nbind + nhist + nmemo // 2]})
+    ctx.sample({'c2s_args': obs[nbind + nhist + nmemo + nargs // 2]}, limit=9)
+    ctx.sample({'c2s_deco': obs[nbind + nhist + nmemo + nargs + ndeco // 2]}, limit=9)
 
 
 # ------------------------------------------------------------------------------------------------
@@ -686,7 +1079,7 @@ def run(ctx):
     ctx.mc('MC_Decorators', 'MC_Decorators_today.cfg', must_fail='MechRefinesMC', coverage=False, workers=1)
     lap('mc')
     cases = ctx.generate('MC_Decorators', 'MC_Decorators_gen_quick.cfg' if ctx.quick else 'MC_Decorators_gen_thorough.cfg')
-    parts = {'bind': [], 'heap': [], 'memo': [], 'chain': []}
+    parts = {'bind': [], 'heap': [], 'memo': [], 'chain': [], 'exc': [], 'args': [], 'deco': []}
     for c in cases:
         parts[c['part']].append(c)
     if not all(parts.values()):
@@ -702,6 +1095,10 @@ def run(ctx):
     lap('s2c_bind')
     s2c_memo(ctx, rep, parts['memo'])
     lap('s2c_memo')
+    s2c_exc(ctx, rep, parts['exc'])
+    s2c_args(ctx, rep, parts['args'])
+    s2c_deco(ctx, rep, parts['deco'])
+    lap('s2c_exc_args_deco')
     if ctx.quick:
         # every history is built and projected on one base function (rotating); every history of <= 3 steps and every 8th
         # of the 4-step ones is also called (schedule alternating)
@@ -720,9 +1117,9 @@ def run(ctx):
         s2c_heap(ctx, rep, parts['heap'], table, sigs, ('late', 'eager'), pick)
     lap('s2c_heap')
     if ctx.quick:
-        c2s(ctx, rep, 900, 300, 250)
+        c2s(ctx, rep, 900, 300, 250, 200, 150)
     else:
-        c2s(ctx, rep, 6000, 2000, 2000)
+        c2s(ctx, rep, 6000, 2000, 2000, 2000, 2000)
     lap('c2s')
     rep.finish()
     ctx.exhaustive = False
